@@ -14,9 +14,18 @@ Driver for the incremental-parsing scanner layer (`Model/Incremental.lean`), exe
   O := {"full":[[id,[units],m]…],"part":[[id,[units],q]…]}   (absent pair = no match)
   for "run" the tables must list every (regex of alts, infix of the input) pair that matches; the driver
   cannot tell an absent pair from a forgotten one, so the harness always sends all infixes.
+  {"op":"erun","mode":…,"grammar":G,"start":name,"pieces":[[u…]…],"oracle":O,"fuel":n}
+      → {"steps":[{"parses":[tree…],"can_continue":bool,"resumable":[{"want":T,"idx":n,"pre":[u…]}…],
+                   "halted":bool,"cut":bool,"beginners":bool,"states":n}…]}
+     the same on the engine of the REAL closure (`Model/IncrEarley.lean: earleyEngine`, prediction order = order of
+     the compiled rule table) for an arbitrary grammar G (IR JSON of `harness/impl/grammar_io.py`); per piece whether
+     every column pass came to its end within `fuel` steps, whether the covering cut fired in one of them and
+     whether a `*` / `+` right-recursion state was alive in one of the closed columns (the three conditions under
+     which `Props/C13.lean` proves the laws of the closure), and the number of states in the table
 -/
 import Driver.IRJson
 import Model.Incremental
+import Model.IncrEarley
 open Lean FV FV.Drv FV.Incr
 
 def modeOf (j : Json) : Except String Mode := do
@@ -69,6 +78,25 @@ def jEntryOut (p : Nat × Entry LinItem) : Json :=
       | some l => if p.2.inc then Json.null else jLeaf l
       | none => Json.null)]
 
+structure PassStats where
+  halted : Bool := true
+  cut : Bool := false
+  beginners : Bool := false
+
+def PassStats.add (a : PassStats) (r : IncrE.CloseRes) : PassStats :=
+  ⟨a.halted && r.halted, a.cut || r.cut, a.beginners || r.beginners⟩
+
+/-- `feed` on the engine of the real closure, one `closeRun` per column (`procCol` unfolded), with the flags of
+    the passes -/
+def efeed (pred : Nat → Earley.NT → List (List Earley.ESym)) (fuel : Nat) (R : ROracle) (md : Mode)
+    (word : Units) : Nat → Nat → PState IncrE.KI → PassStats → PState IncrE.KI × PassStats
+  | _, 0, s, st => (s, st)
+  | i, n + 1, s, st =>
+    let r := IncrE.procRes pred fuel R md word (i / 8) s
+    let s' : PState IncrE.KI :=
+      ⟨s.done ++ [r.col], s.pend ++ scanCol (IncrE.earleyEngine pred fuel) R md r.col s.done.length word (i / 8)⟩
+    efeed pred fuel R md word (i + 1) n s' (st.add r)
+
 def handle (j : Json) : Except String Json := do
   let op ← j.getObjValAs? String "op"
   match op with
@@ -102,6 +130,30 @@ def handle (j : Json) : Except String Json := do
         ("can_continue", Json.bool (canContinue linEngine s)),
         ("resumable", Json.arr res.toArray)]])
     let (_, steps) := pieces.foldl step (linStart alts, [])
+    return Json.mkObj [("steps", Json.arr steps.toArray)]
+  | "erun" =>
+    let md ← modeOf (← j.getObjVal? "mode")
+    let R ← roracleOf (← j.getObjVal? "oracle")
+    let G ← grammarOf (← j.getObjVal? "grammar")
+    let start ← j.getObjValAs? String "start"
+    let fuel ← (← j.getObjVal? "fuel").getNat?
+    let pieces ← (← (← j.getObjVal? "pieces").getArr?).toList.mapM natArr
+    let pred := Earley.predDefault G Earley.Variant.now.cap
+    let eng := IncrE.earleyEngine pred fuel
+    let step (acc : PState IncrE.KI × List Json) (piece : List Nat) : PState IncrE.KI × List Json :=
+      let (s, st) := efeed pred fuel R md piece 0 (8 * piece.length) acc.1 {}
+      let last := IncrE.lastRes pred fuel R md s
+      let st := st.add last
+      let parses := (IncrE.treesOf last.col).map jTree
+      let res := (resumable s).map (fun e => Json.mkObj [
+        ("want", match eng.want e.item with | some t => jTTerm t | none => Json.null),
+        ("idx", Json.num (JsonNumber.fromNat e.idx)), ("pre", jNats e.pre)])
+      (s, acc.2 ++ [Json.mkObj [("parses", Json.arr parses.toArray),
+        ("can_continue", Json.bool (canContinue eng s)),
+        ("resumable", Json.arr res.toArray),
+        ("halted", Json.bool st.halted), ("cut", Json.bool st.cut), ("beginners", Json.bool st.beginners),
+        ("states", Json.num (JsonNumber.fromNat ((s.done.map List.length).sum + last.col.length)))]])
+    let (_, steps) := pieces.foldl step (IncrE.startState start, [])
     return Json.mkObj [("steps", Json.arr steps.toArray)]
   | _ => throw s!"unknown op {op}"
 
